@@ -198,7 +198,13 @@ void ThreadPool::threadLoopImpl(PerThreadData& data, int32_t ringIndex) {
   detail::PerPoolPerThreadInfo::registerPool(this, &ptoken, ringIndex);
   auto* ws = detail::consumeLoad(wakeState_);
   assert(ws && "wakeState_ null — threads must not outlive their PoolWakeState");
+  if (kUseWakeSleep) {
+    DISPENSO_VERIF_HOOK("wake.call.start", ws, ringIndex, 0);
+  }
   uint32_t epoch = ws->waiterFor(ringIndex).current();
+  if (kUseWakeSleep) {
+    DISPENSO_VERIF_HOOK("wake.ret.start", ws, epoch, 0);
+  }
   size_t myRingIndex = static_cast<size_t>(ringIndex);
   Ring& myRing = rings_[myRingIndex];
   size_t myStealIdx = static_cast<size_t>(ringIndex) / stealRingSharing_;
@@ -207,7 +213,23 @@ void ThreadPool::threadLoopImpl(PerThreadData& data, int32_t ringIndex) {
   int failCount = 0;
   bool isWorking = false;
 
+#if defined(DISPENSO_VERIF)
+  // The loop guard, bracketed by observation hooks in verification builds.
+  auto stillRunning = [&]() {
+    if (kUseWakeSleep) {
+      DISPENSO_VERIF_HOOK("wake.call.run", ws, ringIndex, 0);
+    }
+    bool isRunning = data.running();
+    if (kUseWakeSleep) {
+      DISPENSO_VERIF_HOOK("wake.ret.run", ws, isRunning, 0);
+    }
+    return isRunning;
+  };
+
+  while (stillRunning()) {
+#else
   while (data.running()) {
+#endif
     int localWorkDone = 0;
     bool checkQueue = (failCount < kSpinCheckInterval) ||
         (((failCount + ringIndex) & (kQueueCheckInterval - 1)) == 0);
@@ -259,9 +281,11 @@ void ThreadPool::threadLoopImpl(PerThreadData& data, int32_t ringIndex) {
     if (failCount >= kDefaultSpinLimit) {
       markIdle(isWorking);
       if (kUseWakeSleep) {
+        DISPENSO_VERIF_HOOK("wake.call.park", ws, ringIndex, 0);
         ws->enterSleep(ringIndex);
         if (!data.running()) {
           ws->exitSleep(ringIndex);
+          DISPENSO_VERIF_HOOK("wake.ret.park", ws, 0, 0);
           break;
         }
       }
@@ -269,6 +293,7 @@ void ThreadPool::threadLoopImpl(PerThreadData& data, int32_t ringIndex) {
       epoch = waitOnThread(ringIndex, epoch);
       if (kUseWakeSleep) {
         ws->exitSleep(ringIndex);
+        DISPENSO_VERIF_HOOK("wake.ret.park", ws, epoch, 0);
       }
       // centralQueueNonEmpty_ is a cheap hint and is allowed to be wrong: a
       // worker clearing it after a failed dequeue can overwrite a concurrent
@@ -312,6 +337,7 @@ void ThreadPool::resizeLocked(ssize_t sn) {
   // wakeState_ because sleeping threads hold references to EpochWaiters
   // inside the wake state — replacing it while threads sleep would
   // invalidate those futex addresses.
+  DISPENSO_VERIF_HOOK("wake.stop.begin", wakeState_.load(std::memory_order_relaxed), 0, 0);
   for (auto& t : threads_) {
     t.stop();
   }
@@ -320,6 +346,7 @@ void ThreadPool::resizeLocked(ssize_t sn) {
     if (ws) {
       ws->wakeAll();
     }
+    DISPENSO_VERIF_HOOK("wake.stop.end", ws, 0, 0);
   }
 
   // Drain central queue while threads are stopping
@@ -330,6 +357,7 @@ void ThreadPool::resizeLocked(ssize_t sn) {
     t.thread_.join();
   }
   threads_.clear();
+  DISPENSO_VERIF_HOOK("wake.joined", wakeState_.load(std::memory_order_relaxed), 0, 0);
 
   // Drain all rings in the arena (including shadow entries from prior resize-up)
   for (size_t i = 0; i < rings_.size(); ++i) {
@@ -425,6 +453,7 @@ ThreadPool::~ThreadPool() {
   // One-at-a-time stop+wake is fragile: a wake() can reach an already-awake
   // thread while another remains sleeping, forcing it to wait for the epoch
   // timeout to notice the stop flag.
+  DISPENSO_VERIF_HOOK("wake.stop.begin", wakeState_.load(std::memory_order_relaxed), 0, 0);
   for (auto& t : threads_) {
     t.stop();
   }
@@ -433,6 +462,7 @@ ThreadPool::~ThreadPool() {
     if (ws) {
       ws->wakeAll();
     }
+    DISPENSO_VERIF_HOOK("wake.stop.end", ws, 0, 0);
   }
 
   while (tryExecuteNext()) {
@@ -442,6 +472,7 @@ ThreadPool::~ThreadPool() {
     t.thread_.join();
   }
   threads_.clear();
+  DISPENSO_VERIF_HOOK("wake.joined", wakeState_.load(std::memory_order_relaxed), 0, 0);
 
   // Drain central queue
   while (tryExecuteNext()) {
